@@ -360,7 +360,12 @@ impl Gen {
             }
             3 => {
                 if self.rng.chance(15) {
-                    return if self.rng.chance(50) { MoveLike::UciStr("0000".into()) } else { MoveLike::UciNull };
+                    return match self.rng.below(4) {
+                        0 => MoveLike::UciStr("0000".into()),
+                        1 => MoveLike::UciNull,
+                        2 => MoveLike::SanStr("0000".into()),
+                        _ => MoveLike::SanMove { data: SanData::UciNull, check: 0 },
+                    };
                 }
                 if let (Some(l), true) = (some_legal, self.rng.chance(40)) {
                     // a legal move's coordinates with a promotion letter added or dropped
@@ -704,6 +709,9 @@ impl Gen {
         let m = self.choose_legal(&info, w).unwrap();
         if self.rng.chance(6) {
             return Op::PushUnchecked(m);
+        }
+        if self.prop != C02 && self.prop != C17 && !info.in_check && self.rng.chance(2) {
+            return Op::PushUnchecked(RMove { kind: rm::K_NULL, cell: 0, src: 0, dst: 0 });
         }
         Op::Push(self.legal_like(&info, &m))
     }
